@@ -1,4 +1,5 @@
 import AndaVerif.Model.Schema
+import AndaVerif.Model.SchemaDoc
 import AndaVerif.Drv.Util
 /-
 Driver of the C13 model. One request per line, tokens separated by one space.
@@ -20,7 +21,14 @@ Driver of the C13 model. One request per line, tokens separated by one space.
   rt <hint> type value         set_field, then load of the stored value -> err | ok value | <load answer>
   load <hint> type value       cbor2 encode, decode, try_from_doc   -> ok value | err:ser | err:de | err:read
   ext <hint> type cbor         FieldType::extract                   -> ok value | err
-  (document / schema level requests are handled by `AndaVerif.DrvC13.docStep`, see below)
+  ext <hint> type cbor         Document::try_from, one field        -> ok value | err
+  compat - newtype oldtype     FieldType::is_compatible_upgrade_of  -> true | false
+ stateful (one current schema, a list of stored documents):
+  schema - <ver> <n> (name u0|u1 type)*n     SchemaBuilder, fields in add order   -> ok name:idx,… end=<watermark> | err
+  upgrade - <ver> <n> (name u0|u1 type)*n    build, then upgrade_with(current)    -> same | err   (state kept on err)
+  put <hint> <n> (name value)*n              set_id(1), set_field*, encode        -> ok <doc#> | err | err:ser
+  typed <hint> <n> (name cbor)*n             Document::try_from, encode           -> ok <doc#> | err | err:ser
+  get <hint> <doc#>                          decode, try_from_doc(current)        -> ok <n> (idx value)*n | err:de | err:read
 -/
 open AndaVerif.Schema AndaVerif.Drv
 
@@ -299,11 +307,105 @@ def valueStep (ws : List String) : Option String :=
     | _ => none
   | _ => none
 
+structure St where
+  schema : Option Schema := none
+  docs : Array Doc := #[]
+
+def showSchema (s : Schema) : String :=
+  "ok " ++ ",".intercalate (s.fields.map (fun f => f.name ++ ":" ++ toString f.idx)) ++ " end=" ++ toString s.allocatedIdxEnd
+
+partial def parseFields : Nat → List String → Option (List (String × FieldType × Bool) × List String)
+  | 0, r => some ([], r)
+  | n + 1, name :: u :: r => do
+    let u ← (if u == "u1" then some true else if u == "u0" then some false else none)
+    let (t, r) ← parseType r
+    let (fs, r) ← parseFields n r
+    pure ((name, t, u) :: fs, r)
+  | _, _ => none
+
+partial def parseNamed {α : Type} (p : List String → Option (α × List String)) : Nat → List String → Option (List (String × α) × List String)
+  | 0, r => some ([], r)
+  | n + 1, name :: r => do
+    let (v, r) ← p r
+    let (vs, r) ← parseNamed p n r
+    pure ((name, v) :: vs, r)
+  | _, _ => none
+
+def showDoc (d : Doc) : String :=
+  " ".intercalate (("ok " ++ toString d.length) :: d.map (fun e => toString e.1 ++ " " ++ showValue e.2))
+
+def storeDoc (fm : FloatModel) (st : St) (d : Doc) : St × String :=
+  if d.all (fun e => (toDM fm e.2).isSome) then
+    ({ st with docs := st.docs.push d }, "ok " ++ toString st.docs.size)
+  else (st, "err:ser")
+
+def docStep (st : St) (ws : List String) : Option (St × String) :=
+  match ws with
+  | "ext" :: hint :: rest => do
+    let fm := drvFloat (← parseHint hint)
+    let (ft, rest) ← parseType rest
+    let (c, r) ← parseDM rest
+    if !r.isEmpty then none
+    pure (st, match extractField fm ft c with | some v => "ok " ++ showValue v | none => "err")
+  | "compat" :: _ :: rest => do
+    let (n, rest) ← parseType rest
+    let (o, r) ← parseType rest
+    if !r.isEmpty then none
+    pure (st, if compatible n o then "true" else "false")
+  | "schema" :: _ :: ver :: n :: rest => do
+    let (fs, r) ← parseFields (← n.toNat?) rest
+    if !r.isEmpty then none
+    match Schema.build (← ver.toNat?) fs with
+    | some s => pure ({ schema := some s, docs := #[] }, showSchema s)
+    | none => pure (st, "err")
+  | "upgrade" :: _ :: ver :: n :: rest => do
+    let (fs, r) ← parseFields (← n.toNat?) rest
+    if !r.isEmpty then none
+    let cur ← st.schema
+    match Schema.build (← ver.toNat?) fs with
+    | none => pure (st, "err")
+    | some new => match Schema.upgradeWith new cur with
+      | some s => pure ({ st with schema := some s }, showSchema s)
+      | none => pure (st, "err")
+  | "put" :: hint :: n :: rest => do
+    let fm := drvFloat (← parseHint hint)
+    let (fs, r) ← parseNamed parseValue (← n.toNat?) rest
+    if !r.isEmpty then none
+    if !(fs.all (fun f => f.2.WF fm)) then none
+    let s ← st.schema
+    let d := fs.foldl (fun (acc : Option Doc) f => match acc with
+      | none => none
+      | some d => Doc.setField fm s d f.1 f.2) (some [(0, FieldValue.u64 1)])
+    match d with
+    | none => pure (st, "err")
+    | some d => pure (storeDoc fm st d)
+  | "typed" :: hint :: n :: rest => do
+    let fm := drvFloat (← parseHint hint)
+    let (fs, r) ← parseNamed parseDM (← n.toNat?) rest
+    if !r.isEmpty then none
+    let s ← st.schema
+    match tryFromTyped fm s (fs.map (fun f => (DM.text f.1, f.2))) with
+    | none => pure (st, "err")
+    | some d => pure (storeDoc fm st d)
+  | ["get", hint, k] => do
+    let fm := drvFloat (← parseHint hint)
+    let s ← st.schema
+    let d ← st.docs[(← k.toNat?)]?
+    match Doc.storeDecode fm d with
+    | none => pure (st, "err:de")
+    | some r => match tryFromDoc fm s r with
+      | none => pure (st, "err:read")
+      | some x => pure (st, showDoc x)
+  | _ => none
+
 end AndaVerif.DrvC13
 
 open AndaVerif.DrvC13 in
 def main : IO Unit :=
-  AndaVerif.Drv.lineLoop () (fun _ line =>
-    match valueStep (AndaVerif.Drv.words line) with
-    | some out => ((), out)
-    | none => ((), "bad-op"))
+  AndaVerif.Drv.lineLoop ({} : St) (fun st line =>
+    let ws := AndaVerif.Drv.words line
+    match docStep st ws with
+    | some (st', out) => (st', out)
+    | none => match valueStep ws with
+      | some out => (st, out)
+      | none => (st, "bad-op"))
